@@ -141,3 +141,21 @@ Definition create_or_update_pg (lister api : option podgroup) (sp : spec) (xs : 
            | Some _ => (Some g', false)
            end
   end.
+
+(* ---------- createJobPod (job_controller_util.go 46-180): what a pod derives from (job, task, index) ---------- *)
+Record pod_fields := mkPF {
+  pf_task : positive;        (* volcano.sh/task-spec annotation *)
+  pf_idx : Z;                (* volcano.sh/task-index annotation *)
+  pf_lbl_task : positive;    (* volcano.sh/task-spec label *)
+  pf_lbl_idx : Z;            (* volcano.sh/task-index label *)
+  pf_version : Z;            (* volcano.sh/job-version annotation *)
+  pf_retry : Z;              (* volcano.sh/job-retry-count annotation *)
+  pf_user_lbl : Z;           (* the template's own label (0: none) *)
+  pf_user_ann : Z }.         (* the template's own annotation (0: none) *)
+
+Definition create_job_pod (ver retry : Z) (t : task) (x : task_extra) (i : Z) : pod_fields :=
+  mkPF (t_name t) i (t_name t) i ver retry (Z.max 0 (x_cpu x)) (Z.max 0 (x_mem x)).
+
+(* syncJob builds every missing replica of a task from ONE copy of the task template before it creates any *)
+Definition create_task_pods (ver retry : Z) (t : task) (x : task_extra) (idxs : list Z) : list pod_fields :=
+  map (create_job_pod ver retry t x) idxs.
